@@ -89,6 +89,12 @@ func blockSequences() {
 			switch op {
 			case 0:
 				b := small()
+				if len(b) == 0 && rng.IntN(2) == 0 {
+					trace = append(trace, "SetData(nil)")
+					p, pv, st = mon.Guard(func() { d.SetData(nil) })
+					model, consistent = []byte{}, true
+					break
+				}
 				trace = append(trace, fmt.Sprintf("SetData(%d)", len(b)))
 				p, pv, st = mon.Guard(func() { d.SetData(append([]byte{}, b...)) })
 				model, consistent = append([]byte{}, b...), true
@@ -241,6 +247,11 @@ func blockSequences() {
 				ws := someWords()
 				trace = append(trace, fmt.Sprintf("Words = %d words (direct)", len(ws)))
 				pb.Words = ws
+				if rng.IntN(2) == 0 {
+					wc := uint8([]int{0, 1, len(ws) + 1, 255}[rng.IntN(4)])
+					trace = append(trace, fmt.Sprintf("WordCount = %d (direct)", wc))
+					pb.WordCount = wc
+				}
 				consistent = false
 			case 6:
 				trace = append(trace, "Unmarshal(empty)")
@@ -257,6 +268,19 @@ func blockSequences() {
 				break
 			}
 			if !consistent {
+				// count and content disagree (direct assignment, refused decode): Marshal refuses, or
+				// whatever it emits announces what it carries
+				var out []byte
+				var err error
+				p, pv, st = mon.Guard(func() { out, err = pb.Marshal() })
+				r.Eval(1)
+				if p {
+					r.Violation("parameters.Parameters:sequence:panic", fmt.Sprintf("Marshal: panic %v at %s", pv, mon.TopLibFrame(st)), cs)
+					break
+				}
+				if err == nil && (len(out) < 1 || 2*int(out[0]) != len(out)-1) {
+					r.Violation("parameters.Parameters:sequence:count:inconsistent-object", fmt.Sprintf("an object whose WordCount (%d) and Words (%d) disagree is encoded as a block announcing %d words followed by %d bytes", pb.WordCount, len(pb.Words), out[0], len(out)-1), cs)
+				}
 				continue
 			}
 			var out []byte
